@@ -345,7 +345,12 @@ theorem startApp_quiet (cid : Nat) (blocked : List Nat) (a : App) (s : State) :
     Quiet s (startApp cid blocked a s).1 := by
   unfold startApp
   split
-  · exact bindAll_quiet _ _ _ _ _
+  · have h := bindAll_quiet cid a blocked a.listen s
+    generalize bindAll cid a blocked a.listen s = r at h
+    obtain ⟨s', b⟩ := r
+    cases b with
+    | true => exact h
+    | false => exact h.trans (closeApp_quiet _ _ _)
   · split
     · exact quiet_evA _ _
     · have h := (quiet_evA s [.start cid a.name]).trans
